@@ -44,7 +44,12 @@ pub fn build(spec: &NetSpec) -> Net {
     let mut clients = vec![];
     let first_ip = node_ip(&spec.plan, 0);
     let mut boot: Vec<String> = (0..spec.dead_bootstrap).map(|i| format!("{}:6881", Ipv4Addr::new(10, 250, 0, i as u8 + 1))).collect();
-    boot.push(format!("{first_ip}:6881"));
+    if spec.dead_bootstrap > 30 {
+        // the live server in the middle of a long list
+        boot.insert(spec.dead_bootstrap / 2, format!("{first_ip}:6881"));
+    } else {
+        boot.push(format!("{first_ip}:6881"));
+    }
     let mk = |i: usize, server: bool, boot: &[String], plan: &str| {
         let ip = node_ip(plan, i);
         let mut o = if server { NodeOpts::server(ip, boot) } else { NodeOpts::client(ip, boot) };
